@@ -114,6 +114,18 @@ func runC11(c *ev.Ctx) {
 			cases = append(cases, singleCase{NumByte: nb, Content: gen.Seq{Fam: fam, N: (nb + extra) * 8, Seed: gen.Mix(seed, 11, uint64(nb), uint64(k))}, Chunk: pl})
 		}
 	}
+	// large requests dominated by one byte value (counts of 2^16 and more in one bin) and their random controls
+	for k, nb := range []int{65535, 65536, 65537, 131072, 131075, 262144, 1 << 20, 1<<20 + 3} {
+		for j, sq := range []gen.Seq{{Fam: "zeros"}, {Fam: "ones"}, {Fam: "sparse", A: 3}, {Fam: "bias", A: 2}, {Fam: "bias", A: 998}, {Fam: "uniform"}, {Fam: "bytepat", Hex: "a5"}} {
+			sq.N = (nb + extra) * 8
+			sq.Seed = gen.Mix(seed, 1112, uint64(nb), uint64(j))
+			pl := mon.ChunkPlan{Kind: "whole"}
+			if (k+j)%4 == 0 {
+				pl = mon.ChunkPlan{Kind: "fixed", Size: 4096}
+			}
+			cases = append(cases, singleCase{NumByte: nb, Content: sq, Chunk: pl})
+		}
+	}
 	lens := []int{16, 17, 20, 30, 38, 39, 40, 41, 42, 50, 64, 100, 500, 1000, 1270, 1278, 1279, 1280, 1281, 1282, 1300, 2000, 4096}
 	r := gen.NewRng(gen.Mix(seed, 1111))
 	nExtra := 8
